@@ -39,6 +39,7 @@ type RunState struct {
 	Observed map[int]map[int]Cell // sample -> item -> result actually returned to the workflow
 	track    bool
 	memo     map[string]*randomness.TestResult
+	prelude  bool
 }
 
 var active struct {
@@ -72,6 +73,10 @@ func wrapRunner(item int) randomness.TestFunc {
 		if st == nil {
 			return origRunners[item](data)
 		}
+		if st.inPrelude() {
+			// an earlier call of the same run: real results, nothing recorded
+			return origRunners[item](data)
+		}
 		if st.sim {
 			simrt.Yield("runner." + itoa(item))
 		} else {
@@ -99,6 +104,18 @@ func wrapRunner(item int) randomness.TestFunc {
 		st.mu.Unlock()
 		return res
 	}
+}
+
+func (st *RunState) setPrelude(on bool) {
+	st.mu.Lock()
+	st.prelude = on
+	st.mu.Unlock()
+}
+
+func (st *RunState) inPrelude() bool {
+	st.mu.Lock()
+	defer st.mu.Unlock()
+	return st.prelude
 }
 
 func itoa(i int) string {
